@@ -188,6 +188,84 @@ fn seq_fresh(rng: &mut StdRng, id: String, len: usize, out: &mut Vec<Value>, per
     }
 }
 
+// ------------------------------------------------------------------------------------------------ large stores
+/// One long sequence over 7-10 variables (tables of 60-250 nodes, diagrams up to the full depth): one record with the final table,
+/// the operation list (result handle and table length after each), two intermediate tables (prefix check), the memo tables and the
+/// C13 queries of a few handles.  Judged by TLC with the integer-assignment operators of BigBdd.
+fn seq_big(rng: &mut StdRng, id: String, out: &mut Vec<Value>) {
+    let nv = rng.gen_range(7..=10usize);
+    let mut bdd = Bdd::new();
+    let mut ops: Vec<Value> = Vec::new();
+    for v in 0..nv {
+        let r = bdd.variable(Var(v));
+        ops.push(json!({"op": "var", "a": 0, "b": 0, "v": v, "val": false, "r": r.value(), "len": bdd.nodes.len()}));
+    }
+    let nops = rng.gen_range(30..=70);
+    let cp_at = [nops / 3, 2 * nops / 3];
+    let mut cps: Vec<Value> = Vec::new();
+    for i in 0..nops {
+        if bdd.nodes.len() > 240 {
+            break;
+        }
+        if cp_at.contains(&i) {
+            cps.push(json!({"at": ops.len(), "nodes": nodes_json(&bdd)}));
+        }
+        let k = rng.gen_range(0..100);
+        let n = bdd.nodes.len();
+        // mix of recent (deep) handles, literals and anything
+        let mut pick = |rng: &mut StdRng| -> Term {
+            match rng.gen_range(0..10) {
+                0..=4 => Term(rng.gen_range(n.saturating_sub(8)..n)),
+                5..=6 => Term(rng.gen_range(2..(2 + nv).min(n))),
+                _ => Term(rng.gen_range(0..n)),
+            }
+        };
+        let a = pick(rng);
+        let b = pick(rng);
+        if k < 8 {
+            let r = bdd.not(a);
+            ops.push(json!({"op": "not", "a": a.value(), "b": 0, "v": 0, "val": false, "r": r.value(), "len": bdd.nodes.len()}));
+        } else if k < 80 {
+            let (name, r) = match rng.gen_range(0..6) {
+                0 => ("and", bdd.and(a, b)),
+                1 => ("or", bdd.or(a, b)),
+                2 => ("imp", bdd.imp(a, b)),
+                3 => ("iff", bdd.iff(a, b)),
+                _ => ("xor", bdd.xor(a, b)),
+            };
+            ops.push(json!({"op": name, "a": a.value(), "b": b.value(), "v": 0, "val": false, "r": r.value(), "len": bdd.nodes.len()}));
+        } else {
+            let v = rng.gen_range(0..nv);
+            let val = rng.gen_bool(0.5);
+            let r = bdd.restrict(a, Var(v), val);
+            ops.push(json!({"op": "restrict", "a": a.value(), "b": 0, "v": v, "val": val, "r": r.value(), "len": bdd.nodes.len()}));
+        }
+    }
+    let n = bdd.nodes.len();
+    let mut queries: Vec<Value> = Vec::new();
+    // the deepest handles and a few random ones
+    let mut hs: Vec<usize> = (0..n).collect();
+    hs.sort_by_key(|h| std::cmp::Reverse(bdd.max_depth(Term(*h))));
+    hs.truncate(3);
+    for _ in 0..3 {
+        hs.push(rng.gen_range(0..n));
+    }
+    for (k, h) in hs.into_iter().enumerate() {
+        let mut q = query_json(rng, &bdd, nv, Term(h), format!("{}?{}.{}", id, h, k));
+        let obj = q.as_object_mut().unwrap();
+        obj.remove("nodes");
+        obj.remove("feat");
+        // path cubes for one goal variable and both goals
+        let gv = rng.gen_range(0..nv);
+        if let Some(Value::Array(cs)) = obj.get_mut("cubes") {
+            cs.retain(|c| c["gv"].as_u64() == Some(gv as u64));
+        }
+        queries.push(q);
+    }
+    out.push(json!({"kind": "bigseq", "id": id, "nv": nv, "feat": features_json(), "nodes": nodes_json(&bdd), "ops": ops, "cps": cps,
+                    "dump": dump_json(&bdd), "queries": queries}));
+}
+
 // ------------------------------------------------------------------------------------------------ exhaustive short sequences
 #[derive(Clone, Copy, Debug)]
 enum XOp {
@@ -464,6 +542,21 @@ pub fn main(args: &[String]) {
         match k % 4 {
             0 | 1 => seq_fresh(&mut rng, format!("f{}", k), len, &mut recs, k % 8 == 1),
             _ => seq_adf(&mut rng, format!("a{}", k), len.min(14), &mut recs),
+        }
+    }
+    // long sequences on large stores, spread over the trace
+    {
+        let nbig = if nseq.is_some() { 5 } else if tier == "thorough" { 150 } else { 16 };
+        let mut bigs: Vec<Value> = Vec::new();
+        for k in 0..nbig {
+            seq_big(&mut rng, format!("B{}", k), &mut bigs);
+        }
+        // only at sequence boundaries ("reset" records start a sequence)
+        let resets: Vec<usize> = recs.iter().enumerate().filter(|(_, r)| r["kind"] == "reset").map(|(i, _)| i).collect();
+        let stride = (resets.len() / (nbig + 1)).max(1);
+        for (k, b) in bigs.into_iter().enumerate().rev() {
+            let at = resets[((k + 1) * stride).min(resets.len() - 1)];
+            recs.insert(at, b);
         }
     }
     // every sequence of three operations on a fresh store over three variables (thorough: also four operations over two)
